@@ -133,7 +133,8 @@ def bodyB (B : Backend) (cfg : Cfg) (w : World) (s : SState) (v : Verb) (rest : 
     else
       (w, { s with passive := true, dataConn := false }, { replies := [227], dataClosed := s.dataConn })
   | .epsv =>
-    if !rest.isEmpty then (w, { s with alive := false }, { replies := [522] })
+    -- whether the 522 exit ends the session is read off the source (`return False` sites)
+    if !rest.isEmpty then (w, { s with alive := !(Verb.epsv.closingCodes.contains 522) }, { replies := [522] })
     else (w, { s with passive := true, dataConn := false }, { replies := [229], dataClosed := s.dataConn })
   | .abor => (w, s, { replies := [226] })
   | .rest =>
